@@ -7,7 +7,7 @@ open Go.Proto Model.KV Driver
 /-- one backend instance: its model state and its open batches -/
 inductive BSt where
   | mem (db : MemDB)
-  | ldb (db : Ldb)
+  | ldb (m : Ref)
   | ref (m : Ref)     -- bolt
   | bdg (m : Ref)
 
@@ -24,14 +24,14 @@ structure St where
 def BSt.lift (b : BSt) (f : ∀ {σ : Type}, DBI σ → σ → σ) : BSt :=
   match b with
   | .mem db => .mem (f memI db)
-  | .ldb db => .ldb (f ldbI db)
+  | .ldb m => .ldb (f ldbI m)
   | .ref m => .ref (f refI m)
   | .bdg m => .bdg (f bdgI m)
 
 def BSt.read {α : Type} (b : BSt) (f : ∀ {σ : Type}, DBI σ → σ → α) : α :=
   match b with
   | .mem db => f memI db
-  | .ldb db => f ldbI db
+  | .ldb m => f ldbI m
   | .ref m => f refI m
   | .bdg m => f bdgI m
 
@@ -76,7 +76,7 @@ def vI {σ : Type} (I : DBI σ) (pfx : Option Bytes) (under : Bool) : DBI σ :=
 
 def vIter {σ : Type} (I : DBI σ) (db : σ) (pfx : Option Bytes) (under : Bool) (s e : Bound) : Option (List KV) :=
   match pfx, under with
-  | some p, false => pfxIter I db p s e
+  | some p, false => some (pfxIter I db p s e)
   | _, _ => some (I.iter db s e)
 
 def vRIter {σ : Type} (I : DBI σ) (db : σ) (pfx : Option Bytes) (under : Bool) (s e : Bound) : Option (List KV) :=
@@ -86,15 +86,22 @@ def vRIter {σ : Type} (I : DBI σ) (db : σ) (pfx : Option Bytes) (under : Bool
 
 def vPIter {σ : Type} (I : DBI σ) (db : σ) (pfx : Option Bytes) (q : Bound) : Option (List KV) :=
   match pfx with
-  | some p => pfxPrefixIter I db p q
+  | some p => some (pfxPrefixIter I db p q)
   | none => some (prefixIter I db q)
 
 /-- `IteratePrefix(view, q)` -/
 def vIterPrefix {σ : Type} (I : DBI σ) (db : σ) (pfx : Option Bytes) (q : Bytes) : Option (List KV) :=
-  if q.isEmpty then vIter I db pfx false none none else vIter I db pfx false (some q) (cpIncrCore q)
+  if q.isEmpty then vIter I db pfx false none none else vIter I db pfx false (some q) (prefixToEnd q)
 
 def underOp (op : String) : Option String :=
   if op == "uset" || op == "udel" || op == "uget" || op == "uiter" || op == "uriter" then some ((op.drop 1).toString) else none
+
+/-- memBatch and goleveldb keep the recorded ops after Write/Commit; bolt (Reset) and badger (renew) end empty -/
+def afterWrite : BSt → AfterWrite
+  | .mem _ => .keeps
+  | .ldb _ => .keeps
+  | .ref _ => .empty
+  | .bdg _ => .empty
 
 def batchOf (i : Inst) (id : Nat) : List BOp := (i.batches.lookup id).getD []
 
@@ -131,7 +138,8 @@ def stepInst (s : St) (i : Inst) (toks : List String) : Inst × String :=
   else if op == "bset" then (setBatch i id (batchOf i id ++ [BOp.set (pk k) v]), "ok")
   else if op == "bdel" then (setBatch i id (batchOf i id ++ [BOp.del (pk k)]), "ok")
   else if op == "bwrite" || op == "bwritesync" || op == "bcommit" then
-    ({ i with st := i.st.lift (fun I db => writeBatch I db (batchOf i id)) }, "ok")
+    let i' := { i with st := i.st.lift (fun I db => writeBatch I db (batchOf i id)) }
+    (setBatch i' id (batchAfterWrite (afterWrite i.st) (batchOf i id)), "ok")
   else if op == "breset" then (setBatch i id [], "ok")
   else if op == "bdrop" then ({ i with batches := i.batches.filter (fun b => b.1 != id) }, "ok")
   else if op == "reopen" then ({ i with st := i.st.lift (fun I db => I.reopen db), batches := [] }, "ok")
@@ -139,7 +147,7 @@ def stepInst (s : St) (i : Inst) (toks : List String) : Inst × String :=
 
 def newInst (name : String) : Option Inst :=
   if name == "mem" then some { name, st := .mem ⟨[]⟩ }
-  else if name == "ldb" then some { name, st := .ldb ⟨[], []⟩ }
+  else if name == "ldb" then some { name, st := .ldb [] }
   else if name == "bolt" then some { name, st := .ref [] }
   else if name == "bdg" then some { name, st := .bdg [] }
   else none
@@ -154,15 +162,19 @@ def leaf (toks : List String) : Option String :=
   | "indomain" :: _ =>
     some (toString (isKeyInDomain (argBytes toks "k") (argBound toks "s") (argBound toks "e") ((arg? toks "rev") == some "1")))
   | "ptoend" :: _ => some (showBound (prefixToEnd (argBytes toks "p")))
-  | "cpincr" :: _ =>
+  | "ipbounds" :: _ =>   -- the bounds `IteratePrefix` hands to `Iterator`
     let b := argBytes toks "b"
-    some (if b.isEmpty then "s=nil e=nil" else s!"s={showBound (some b)} e={showBound (cpIncrCore b)}")
+    some (if b.isEmpty then "s=nil e=nil" else s!"s={showBound (some b)} e={showBound (prefixToEnd b)}")
   | "cpdecr" :: _ => some (showPair (pfxBoundsRev (argBytes toks "b") none none))
   | "ptrans" :: _ =>
     let p := argBytes toks "p"
     some (showPair (if (arg? toks "rev") == some "1" then pfxBoundsRev p (argBound toks "s") (argBound toks "e")
-                    else pfxBoundsFwd p (argBound toks "s") (argBound toks "e")))
-  | "crashprobe" :: _ => some "crashed"   -- badger batch reuse after Write/Reset (finding badger-batch-reuse-crash)
+                    else some (pfxBoundsFwd p (argBound toks "s") (argBound toks "e"))))
+  | "crashprobe" :: _ =>   -- badger batch reuse after Reset / Write in a child process (regression guard for 201fd44)
+    some (if (arg? toks "mode") == some "reset-write" then "survived kv=02:02"
+          else if (arg? toks "mode") == some "write-reset-write" then "survived kv=01:01,02:02"
+          else if (arg? toks "mode") == some "write-write" then "survived kv=02:02"
+          else "bad-op")
   | _ => none
 
 def step (s : St) (toks : List String) : St × String :=
